@@ -167,7 +167,7 @@ impl Read for AsyncReadableFile {
         buf: &mut [u8],
     ) -> Poll<Result<usize, async_std::io::Error>> {
         let this = self.get_mut();
-        let bytes_left = this.len() - this.cursor_pos;
+        let bytes_left = this.len().saturating_sub(this.cursor_pos);
         let bytes_read = std::cmp::min(buf.len() as u64, bytes_left);
         if bytes_left == 0 {
             return Poll::Ready(Ok(0));
@@ -187,15 +187,17 @@ impl Seek for AsyncReadableFile {
         pos: SeekFrom,
     ) -> Poll<Result<u64, async_std::io::Error>> {
         let this = self.get_mut();
+        // Same contract as std::io::Cursor (and the sync ReadableFile): seeking before the
+        // start is an error, seeking past the end is allowed and reads there return 0 bytes.
         let new_pos = match pos {
-            SeekFrom::Start(offset) => offset as i64,
-            SeekFrom::End(offset) => this.cursor_pos as i64 - offset,
-            SeekFrom::Current(offset) => this.cursor_pos as i64 + offset,
+            SeekFrom::Start(offset) => offset as i128,
+            SeekFrom::End(offset) => this.len() as i128 + offset as i128,
+            SeekFrom::Current(offset) => this.cursor_pos as i128 + offset as i128,
         };
-        if new_pos < 0 || new_pos >= this.len() as i64 {
+        if new_pos < 0 || new_pos > u64::MAX as i128 {
             Poll::Ready(Err(async_std::io::Error::new(
-                async_std::io::ErrorKind::InvalidData,
-                "Requested offset is outside the file!",
+                async_std::io::ErrorKind::InvalidInput,
+                "invalid seek to a negative or overflowing position",
             )))
         } else {
             this.cursor_pos = new_pos as u64;
